@@ -3,7 +3,10 @@ package main
 import (
 	"context"
 	"fmt"
+	"net/http"
+	"net/url"
 	"runtime"
+	"strconv"
 	"sort"
 	"strings"
 	"sync"
@@ -27,9 +30,19 @@ import (
 //
 //	RANGE  = <tenant> <query> <start> <step> <splitMs> <maxSourceResolution> <shard> <lookback> <engine> <partial> <replicas> <analyze>
 //	         shard = - | <total>/<index>/<by>/<labels>   labels = hex;hex | -        replicas = hex,hex | -     (list element _ = empty string)
-//	LABELS = <tenant> <label> <selectors> <text> <start> <splitMs> <partial>
+//	LABELS = <tenant> <label> <selectors> <text> <sets> <start> <splitMs> <partial>
 //	         selectors = hex;hex | -  (PromQL selectors, one per match[]);  text = fmt.Sprintf("%s", [][]*labels.Matcher) of them
-//	SERIES = <tenant> <selectors> <text> <start> <splitMs> <partial> <replicas>
+//	         (the rendering of the Prometheus library, which the key is specified to contain);
+//	         sets = set;set | -   set = m,m   m = <hexname>.<op 0 = | 1 != | 2 =~ | 3 !~>.<hexvalue>   the matchers as data
+//	         label "" = a label-names request
+//	SERIES = <tenant> <selectors> <text> <sets> <start> <splitMs> <partial> <replicas>
+//
+// key.labels / key.series (and their pairs) build the request DIRECTLY from <sets> (labels.NewMatcher); key.url.labels /
+// key.url.series / key.pair.url.* build it with the real codec: NewThanosLabelsCodec.DecodeRequest of
+// /api/v1/labels | /api/v1/label/<label>/values | /api/v1/series ? match[]=<selector>… & start & end & partial_response
+// (& dedup & replicaLabels[]), then WithSplitInterval as the split middleware does; the decoded request must carry
+// exactly <sets> (else the answer is codec-mismatch).  The model checks on every request that <text> reads back as
+// <sets> (answer render-mismatch) — the hypothesis its injectivity theorem needs of the rendering.
 //
 // Every request is cacheable (Dedup = true, no store matchers, caching not disabled).
 //
@@ -50,7 +63,8 @@ import (
 // Oracle on pairs (independent of the model): two requests that differ in tenant or in a result-changing parameter
 // (range: query, step, resolution bucket, shard info, lookback, engine, partial response, replica label set, analyze;
 // labels: label, matchers, partial response; series: matchers, partial response, replica label set) and have equal
-// keys are a violation; the class names the reason:
+// keys are a violation; matchers are compared AS DATA (<sets>: names, operators, values), never as text; the class
+// names the reason:
 //
 //	range-tenant-colon                 some tenant id contains ':'
 //	range-field-separator              tenants colon-free; an engine contains ':' or a replica label contains ':' or ','
@@ -61,6 +75,8 @@ import (
 //	series-field-separator             a replica label of a series request contains ':' or ','
 //	series-tenant-colon                a tenant id contains ':'
 //	cross-type-tenant-colon            labels key == series key, a tenant id contains ':' (impossible since 3dc503b62)
+//	matchers-not-separated             same tenant (and label), the matcher sets differ as data: the rendering of the matchers in
+//	                                   the key is not injective (must not occur)
 //	*-key-collision                    anything else
 
 func init() {
@@ -136,10 +152,85 @@ func parseC43Range(tok []string) (*c43Range, bool) {
 	return &c43Range{tenant: tn, req: r}, true
 }
 
+type c43M struct {
+	name  string
+	op    int
+	value string
+}
+
+var c43MatchTypes = []labels.MatchType{labels.MatchEqual, labels.MatchNotEqual, labels.MatchRegexp, labels.MatchNotRegexp}
+
 type c43Meta struct {
 	tenant string
 	req    queryrange.Request
 	text   string
+	sets   [][]c43M
+}
+
+func parseSets(tok string) ([][]c43M, bool) {
+	var out [][]c43M
+	for _, st := range hlib.Split(tok, ";") {
+		var set []c43M
+		for _, mt := range strings.Split(st, ",") {
+			p := strings.Split(mt, ".")
+			if len(p) != 3 || len(p[1]) != 1 || p[1][0] < '0' || p[1][0] > '3' {
+				return nil, false
+			}
+			n, ok1 := unhexTok(p[0])
+			v, ok2 := unhexTok(p[2])
+			if !ok1 || !ok2 {
+				return nil, false
+			}
+			set = append(set, c43M{n, int(p[1][0] - '0'), v})
+		}
+		out = append(out, set)
+	}
+	return out, true
+}
+
+func setsOf(ms [][]*labels.Matcher) [][]c43M {
+	var out [][]c43M
+	for _, set := range ms {
+		var o []c43M
+		for _, m := range set {
+			o = append(o, c43M{m.Name, int(m.Type), m.Value})
+		}
+		out = append(out, o)
+	}
+	return out
+}
+
+func eqSets(a, b [][]c43M) bool {
+	if len(a) != len(b) {
+		return false
+	}
+	for i := range a {
+		if len(a[i]) != len(b[i]) {
+			return false
+		}
+		for j := range a[i] {
+			if a[i][j] != b[i][j] {
+				return false
+			}
+		}
+	}
+	return true
+}
+
+func buildMatchers(sets [][]c43M) ([][]*labels.Matcher, bool) {
+	var ms [][]*labels.Matcher
+	for _, set := range sets {
+		var o []*labels.Matcher
+		for _, m := range set {
+			lm, err := labels.NewMatcher(c43MatchTypes[m.op], m.name, m.value)
+			if err != nil {
+				return nil, false
+			}
+			o = append(o, lm)
+		}
+		ms = append(ms, o)
+	}
+	return ms, true
 }
 
 func parseSelectors(tok string) ([][]*labels.Matcher, bool) {
@@ -158,38 +249,120 @@ func parseSelectors(tok string) ([][]*labels.Matcher, bool) {
 	return ms, true
 }
 
-func parseC43Labels(tok []string) (*c43Meta, bool) {
-	if len(tok) != 7 {
+var c43LabelsCodec = queryfrontend.NewThanosLabelsCodec(false, 0)
+
+func msToSec(ms int64) string { return fmt.Sprintf("%d.%03d", ms/1000, ms%1000) }
+
+// decodeMeta builds the request with the real codec from a URL and sets the split interval like the split middleware.
+func decodeMeta(path string, sels []string, start int64, split time.Duration, partial bool, series bool, replicas []string) (queryrange.Request, bool) {
+	q := url.Values{}
+	for _, sl := range sels {
+		q.Add("match[]", sl)
+	}
+	q.Set("start", msToSec(start))
+	q.Set("end", msToSec(start))
+	q.Set("partial_response", strconv.FormatBool(partial))
+	if series {
+		q.Set("dedup", "true")
+		for _, rl := range replicas {
+			q.Add("replicaLabels[]", rl)
+		}
+	}
+	hr := &http.Request{Method: http.MethodGet, URL: &url.URL{Path: path, RawQuery: q.Encode()}, Header: http.Header{}}
+	req, err := c43LabelsCodec.DecodeRequest(context.Background(), hr, nil)
+	if err != nil || req == nil {
 		return nil, false
+	}
+	sr, ok := req.(queryfrontend.SplitRequest)
+	if !ok {
+		return nil, false
+	}
+	return sr.WithSplitInterval(split), true
+}
+
+// parseC43Labels: viaURL = through the codec; the answer string is non-empty when the op is unusable.
+func parseC43LabelsVia(tok []string, viaURL bool) (*c43Meta, string) {
+	if len(tok) != 8 {
+		return nil, "bad-op"
 	}
 	tn, ok1 := unhexTok(tok[0])
 	lb, ok2 := unhexTok(tok[1])
-	ms, ok3 := parseSelectors(tok[2])
+	sels, ok3 := hexList(tok[2], ";")
 	text, ok4 := unhexTok(tok[3])
+	sets, ok7 := parseSets(tok[4])
+	nums, ok5 := ints(tok[5:7])
+	partial, ok6 := boolTok(tok[7])
+	if !(ok1 && ok2 && ok3 && ok4 && ok5 && ok6 && ok7) {
+		return nil, "bad-op"
+	}
+	ms, ok := buildMatchers(sets)
+	if !ok || fmt.Sprintf("%s", ms) != text {
+		return nil, "bad-op"
+	}
+	split := time.Duration(nums[1]) * time.Millisecond
+	var req queryrange.Request = &queryfrontend.ThanosLabelsRequest{Path: "/api/v1/label/" + lb + "/values", Label: lb, Matchers: ms,
+		Start: nums[0], End: nums[0], SplitInterval: split, PartialResponse: partial}
+	if viaURL {
+		path := "/api/v1/labels"
+		if lb != "" {
+			path = "/api/v1/label/" + lb + "/values"
+		}
+		dr, ok := decodeMeta(path, sels, nums[0], split, partial, false, nil)
+		if !ok {
+			return nil, "codec-error"
+		}
+		lr, ok := dr.(*queryfrontend.ThanosLabelsRequest)
+		if !ok || !eqSets(setsOf(lr.Matchers), sets) || lr.Label != lb || lr.Start != nums[0] || lr.PartialResponse != partial || len(lr.StoreMatchers) != 0 {
+			return nil, "codec-mismatch"
+		}
+		req = dr
+	}
+	return &c43Meta{tenant: tn, text: text, sets: sets, req: req}, ""
+}
+
+func parseC43SeriesVia(tok []string, viaURL bool) (*c43Meta, string) {
+	if len(tok) != 8 {
+		return nil, "bad-op"
+	}
+	tn, ok1 := unhexTok(tok[0])
+	sels, ok3 := hexList(tok[1], ";")
+	text, ok4 := unhexTok(tok[2])
+	sets, ok8 := parseSets(tok[3])
 	nums, ok5 := ints(tok[4:6])
 	partial, ok6 := boolTok(tok[6])
-	if !(ok1 && ok2 && ok3 && ok4 && ok5 && ok6) || fmt.Sprintf("%s", ms) != text {
-		return nil, false
+	repl, ok7 := hexList(tok[7], ",")
+	if !(ok1 && ok3 && ok4 && ok5 && ok6 && ok7 && ok8) {
+		return nil, "bad-op"
 	}
-	return &c43Meta{tenant: tn, text: text, req: &queryfrontend.ThanosLabelsRequest{Path: "/api/v1/label/" + lb + "/values", Label: lb, Matchers: ms,
-		Start: nums[0], End: nums[0], SplitInterval: time.Duration(nums[1]) * time.Millisecond, PartialResponse: partial}}, true
+	ms, ok := buildMatchers(sets)
+	if !ok || fmt.Sprintf("%s", ms) != text {
+		return nil, "bad-op"
+	}
+	split := time.Duration(nums[1]) * time.Millisecond
+	var req queryrange.Request = &queryfrontend.ThanosSeriesRequest{Path: "/api/v1/series", Matchers: ms, Dedup: true,
+		Start: nums[0], End: nums[0], SplitInterval: split, PartialResponse: partial, ReplicaLabels: repl}
+	if viaURL {
+		dr, ok := decodeMeta("/api/v1/series", sels, nums[0], split, partial, true, repl)
+		if !ok {
+			return nil, "codec-error"
+		}
+		sr, ok := dr.(*queryfrontend.ThanosSeriesRequest)
+		if !ok || !eqSets(setsOf(sr.Matchers), sets) || sr.Start != nums[0] || sr.PartialResponse != partial || !sr.Dedup || !eqStrs(sr.ReplicaLabels, repl) {
+			return nil, "codec-mismatch"
+		}
+		req = dr
+	}
+	return &c43Meta{tenant: tn, text: text, sets: sets, req: req}, ""
+}
+
+func parseC43Labels(tok []string) (*c43Meta, bool) {
+	m, bad := parseC43LabelsVia(tok, false)
+	return m, bad == ""
 }
 
 func parseC43Series(tok []string) (*c43Meta, bool) {
-	if len(tok) != 7 {
-		return nil, false
-	}
-	tn, ok1 := unhexTok(tok[0])
-	ms, ok3 := parseSelectors(tok[1])
-	text, ok4 := unhexTok(tok[2])
-	nums, ok5 := ints(tok[3:5])
-	partial, ok6 := boolTok(tok[5])
-	repl, ok7 := hexList(tok[6], ",")
-	if !(ok1 && ok3 && ok4 && ok5 && ok6 && ok7) || fmt.Sprintf("%s", ms) != text {
-		return nil, false
-	}
-	return &c43Meta{tenant: tn, text: text, req: &queryfrontend.ThanosSeriesRequest{Path: "/api/v1/series", Matchers: ms, Dedup: true,
-		Start: nums[0], End: nums[0], SplitInterval: time.Duration(nums[1]) * time.Millisecond, PartialResponse: partial, ReplicaLabels: repl}}, true
+	m, bad := parseC43SeriesVia(tok, false)
+	return m, bad == ""
 }
 
 // c43Key goes the way resultsCache.Do goes: resolver, JoinTenantIDs, GenerateCacheKey.
@@ -288,12 +461,16 @@ func oracleLabelsPair(c *hlib.Ctx, a, b *c43Meta, ka, kb string) {
 		return
 	}
 	x, y := a.req.(*queryfrontend.ThanosLabelsRequest), b.req.(*queryfrontend.ThanosLabelsRequest)
-	keyed := a.tenant == b.tenant && x.Label == y.Label && a.text == b.text
+	keyed := a.tenant == b.tenant && x.Label == y.Label && eqSets(a.sets, b.sets)
 	if keyed && x.PartialResponse == y.PartialResponse {
 		return
 	}
 	what := fmt.Sprintf("labels requests (tenant %q label %q partial %v) and (tenant %q label %q partial %v) share the key %s",
 		a.tenant, x.Label, x.PartialResponse, b.tenant, y.Label, y.PartialResponse, hlib.UnHexS(ka))
+	if !eqSets(a.sets, b.sets) && a.tenant == b.tenant && x.Label == y.Label {
+		c43Viol(c, "matchers-not-separated", fmt.Sprintf("labels requests with the matchers %s and %s (as the library prints them) share the key %s", a.text, b.text, hlib.UnHexS(ka)))
+		return
+	}
 	switch {
 	case keyed:
 		c43Viol(c, "labels-partial-response-not-in-key", what)
@@ -309,12 +486,16 @@ func oracleSeriesPair(c *hlib.Ctx, a, b *c43Meta, ka, kb string) {
 		return
 	}
 	x, y := a.req.(*queryfrontend.ThanosSeriesRequest), b.req.(*queryfrontend.ThanosSeriesRequest)
-	keyed := a.tenant == b.tenant && a.text == b.text
+	keyed := a.tenant == b.tenant && eqSets(a.sets, b.sets)
 	if keyed && x.PartialResponse == y.PartialResponse && eqStrs(sortedCopy(x.ReplicaLabels), sortedCopy(y.ReplicaLabels)) {
 		return
 	}
 	what := fmt.Sprintf("series requests (tenant %q partial %v replicas %q) and (tenant %q partial %v replicas %q) share the key %s",
 		a.tenant, x.PartialResponse, x.ReplicaLabels, b.tenant, y.PartialResponse, y.ReplicaLabels, hlib.UnHexS(ka))
+	if !eqSets(a.sets, b.sets) && a.tenant == b.tenant && !badLabel(x.ReplicaLabels) && !badLabel(y.ReplicaLabels) {
+		c43Viol(c, "matchers-not-separated", fmt.Sprintf("series requests with the matchers %s and %s (as the library prints them) share the key %s", a.text, b.text, hlib.UnHexS(ka)))
+		return
+	}
 	switch {
 	case keyed && !badLabel(x.ReplicaLabels) && !badLabel(y.ReplicaLabels):
 		c43Viol(c, "series-params-not-in-key", what)
@@ -498,16 +679,16 @@ func execC43(c *hlib.Ctx, tok []string) string {
 			return "bad-op"
 		}
 		return c43Key(r.tenant, r.req)
-	case "key.labels":
-		r, ok := parseC43Labels(tok[1:])
-		if !ok {
-			return "bad-op"
+	case "key.labels", "key.url.labels":
+		r, bad := parseC43LabelsVia(tok[1:], tok[0] == "key.url.labels")
+		if bad != "" {
+			return bad
 		}
 		return c43Key(r.tenant, r.req)
-	case "key.series":
-		r, ok := parseC43Series(tok[1:])
-		if !ok {
-			return "bad-op"
+	case "key.series", "key.url.series":
+		r, bad := parseC43SeriesVia(tok[1:], tok[0] == "key.url.series")
+		if bad != "" {
+			return bad
 		}
 		return c43Key(r.tenant, r.req)
 	case "key.pair.range":
@@ -523,21 +704,26 @@ func execC43(c *hlib.Ctx, tok []string) string {
 		ka, kb := c43Key(a.tenant, a.req), c43Key(b.tenant, b.req)
 		oracleRangePair(c, a, b, ka, kb)
 		return pairAnswer(ka, kb)
-	case "key.pair.labels", "key.pair.series", "key.pair.cross":
+	case "key.pair.labels", "key.pair.series", "key.pair.cross", "key.pair.url.labels", "key.pair.url.series":
 		ta, tb, ok := splitBar(tok[1:])
 		if !ok {
 			return "bad-op"
 		}
-		pa, pb := parseC43Labels, parseC43Labels
+		viaURL := strings.HasPrefix(tok[0], "key.pair.url.")
+		tok[0] = strings.Replace(tok[0], ".url.", ".", 1)
+		pa, pb := parseC43LabelsVia, parseC43LabelsVia
 		if tok[0] == "key.pair.series" {
-			pa, pb = parseC43Series, parseC43Series
+			pa, pb = parseC43SeriesVia, parseC43SeriesVia
 		} else if tok[0] == "key.pair.cross" {
-			pb = parseC43Series
+			pb = parseC43SeriesVia
 		}
-		a, ok1 := pa(ta)
-		b, ok2 := pb(tb)
-		if !ok1 || !ok2 {
-			return "bad-op"
+		a, bad1 := pa(ta, viaURL)
+		b, bad2 := pb(tb, viaURL)
+		if bad1 != "" {
+			return bad1
+		}
+		if bad2 != "" {
+			return bad2
 		}
 		ka, kb := c43Key(a.tenant, a.req), c43Key(b.tenant, b.req)
 		switch tok[0] {
@@ -811,48 +997,241 @@ func mutateRange(c *hlib.Ctx, g gRange) gRange {
 
 type gMeta struct {
 	tenant, label string
-	sels          []string
+	sets          [][]c43M
 	start, split  int64
 	partial       bool
 	replicas      []string
 }
 
-func selText(sels []string) string {
-	var ms [][]*labels.Matcher
-	for _, s := range sels {
-		m, err := parser.ParseMetricSelector(s)
-		if err != nil {
-			panic(err)
+var c43OpText = []string{"=", "!=", "=~", "!~"}
+
+func legacyName(n string) bool {
+	for i, ch := range n {
+		if ch == '_' || (ch >= 'a' && ch <= 'z') || (ch >= 'A' && ch <= 'Z') || (i > 0 && ch >= '0' && ch <= '9') {
+			continue
 		}
-		ms = append(ms, m)
+		return false
+	}
+	return n != ""
+}
+
+// selOf writes a matcher set as the PromQL selector a client would send in match[].
+func selOf(set []c43M) string {
+	var ps []string
+	for _, m := range set {
+		n := m.name
+		if !legacyName(n) {
+			n = strconv.Quote(n)
+		}
+		ps = append(ps, n+c43OpText[m.op]+strconv.Quote(m.value))
+	}
+	return "{" + strings.Join(ps, ", ") + "}"
+}
+
+func setsTok(sets [][]c43M) string {
+	if len(sets) == 0 {
+		return "-"
+	}
+	var ss []string
+	for _, set := range sets {
+		var ms []string
+		for _, m := range set {
+			ms = append(ms, fmt.Sprintf("%s.%d.%s", hlib.HexS(m.name), m.op, hlib.HexS(m.value)))
+		}
+		ss = append(ss, strings.Join(ms, ","))
+	}
+	return strings.Join(ss, ";")
+}
+
+func (g gMeta) sels() []string {
+	var out []string
+	for _, set := range g.sets {
+		out = append(out, selOf(set))
+	}
+	return out
+}
+
+// libText is the rendering of the Prometheus library: fmt's %s on [][]*labels.Matcher.
+func libText(sets [][]c43M) string {
+	ms, ok := buildMatchers(sets)
+	if !ok {
+		panic("verif: generator made an invalid matcher")
 	}
 	return fmt.Sprintf("%s", ms)
 }
 
+// urlOK: the selectors parse and give back exactly the sets (a selector needs one matcher that does not match "").
+func (g gMeta) urlOK() bool {
+	if strings.Contains(g.label, "/") {
+		return false
+	}
+	var ms [][]*labels.Matcher
+	for _, sl := range g.sels() {
+		m, err := parser.ParseMetricSelector(sl)
+		if err != nil {
+			return false
+		}
+		ms = append(ms, m)
+	}
+	return eqSets(setsOf(ms), g.sets)
+}
+
 func (g gMeta) encLabels() string {
-	return fmt.Sprintf("%s %s %s %s %d %d %s", hlib.HexS(g.tenant), hlib.HexS(g.label), hexJoin(g.sels, ";"), hlib.HexS(selText(g.sels)), g.start, g.split, b01(g.partial))
+	return fmt.Sprintf("%s %s %s %s %s %d %d %s", hlib.HexS(g.tenant), hlib.HexS(g.label), hexJoin(g.sels(), ";"), hlib.HexS(libText(g.sets)), setsTok(g.sets), g.start, g.split, b01(g.partial))
 }
 
 func (g gMeta) encSeries() string {
-	return fmt.Sprintf("%s %s %s %d %d %s %s", hlib.HexS(g.tenant), hexJoin(g.sels, ";"), hlib.HexS(selText(g.sels)), g.start, g.split, b01(g.partial), hexJoin(g.replicas, ","))
+	return fmt.Sprintf("%s %s %s %s %d %d %s %s", hlib.HexS(g.tenant), hexJoin(g.sels(), ";"), hlib.HexS(libText(g.sets)), setsTok(g.sets), g.start, g.split, b01(g.partial), hexJoin(g.replicas, ","))
+}
+
+var (
+	c43MNames  = []string{"foo", "b", "job", "a", "__name__", "instance", "utf8.name", "x y", "we\"ird", "[a]", "a=b", "é", "le"}
+	c43MValues = []string{"a", "c", "up", "", "x.*", "a|b", "h:9090", "a\" b=\"c", "a\"] [b=\"c", "\"", "\\", "\\\"", "a\\", "a,b", "a b", "[a]", "{a}", "a\nb", "]", "[", "} {", "a\\\" b=\\\"c", "\t", "\x01", "ü\u00a0", ":"}
+)
+
+func genMatcher(r *hlib.Rand, eqOnly bool) c43M {
+	m := c43M{name: genStr(r, c43MNames, "ab_\" ]"), value: genStr(r, c43MValues, "ab\"\\,][{} \n=")}
+	if m.name == "" {
+		m.name = "n"
+	}
+	m.op = r.Intn(2)
+	if !eqOnly && r.Chance(1, 3) {
+		m.op = 2 + r.Intn(2)
+		if _, err := labels.NewMatcher(c43MatchTypes[m.op], m.name, m.value); err != nil {
+			if r.Bool() {
+				m.value = regexpQuote(m.value)
+			} else {
+				m.op -= 2
+			}
+		}
+	}
+	return m
+}
+
+func regexpQuote(v string) string {
+	var b strings.Builder
+	for _, ch := range v {
+		if strings.ContainsRune(`\.+*?()|[]{}^$`, ch) {
+			b.WriteByte('\\')
+		}
+		b.WriteRune(ch)
+	}
+	return b.String()
+}
+
+// genSet: 1-3 matchers; the first one is an equality with a non-empty value so that the selector is valid PromQL.
+func genSet(r *hlib.Rand, eqOnly bool) []c43M {
+	var set []c43M
+	for k := r.Range(1, 3); k > 0; k-- {
+		set = append(set, genMatcher(r, eqOnly))
+	}
+	if set[0].value == "" || set[0].op != 0 {
+		set[0].op = 0
+		if set[0].value == "" {
+			set[0].value = "v"
+		}
+	}
+	return set
+}
+
+func genSets(r *hlib.Rand, eqOnly bool) [][]c43M {
+	var sets [][]c43M
+	for i := r.Intn(3); i > 0; i-- {
+		if r.Chance(1, 3) {
+			m, err := parser.ParseMetricSelector(r.Pick(c43Sels))
+			if err != nil {
+				panic(err)
+			}
+			sets = append(sets, setsOf([][]*labels.Matcher{m})[0])
+			continue
+		}
+		sets = append(sets, genSet(r, eqOnly))
+	}
+	return sets
+}
+
+func rawMatcher(m c43M, esc bool) string {
+	n := m.name
+	if !legacyName(n) {
+		n = strconv.Quote(n)
+	}
+	q := `"`
+	if esc {
+		q = `\"`
+	}
+	return n + c43OpText[m.op] + q + m.value
+}
+
+// twinSets: the "spelled-out twin" of sets: two neighbouring matchers (or two neighbouring selectors) become ONE matcher
+// whose value spells the text between them as a renderer without escaping would write it (esc: as a renderer that
+// escapes the quote but not the backslash would).  ok = false when there is nothing to merge.
+func twinSets(r *hlib.Rand, sets [][]c43M, esc bool) ([][]c43M, bool) {
+	cp := make([][]c43M, len(sets))
+	for i := range sets {
+		cp[i] = append([]c43M(nil), sets[i]...)
+	}
+	q := `"`
+	if esc {
+		q = `\"`
+	}
+	var cands [][2]int
+	for i, set := range cp {
+		for j := 0; j+1 < len(set); j++ {
+			cands = append(cands, [2]int{i, j})
+		}
+		if i+1 < len(cp) && len(set) > 0 && len(cp[i+1]) > 0 {
+			cands = append(cands, [2]int{i, -1})
+		}
+	}
+	if len(cands) == 0 {
+		return nil, false
+	}
+	pick := cands[r.Intn(len(cands))]
+	i, j := pick[0], pick[1]
+	if j >= 0 { // two matchers of one selector
+		m := cp[i][j]
+		if m.op >= 2 {
+			return nil, false
+		}
+		m.value = m.value + q + " " + rawMatcher(cp[i][j+1], esc)
+		cp[i] = append(append(append([]c43M(nil), cp[i][:j]...), m), cp[i][j+2:]...)
+		return cp, true
+	}
+	last := len(cp[i]) - 1
+	m := cp[i][last]
+	if m.op >= 2 {
+		return nil, false
+	}
+	var rest []string
+	for k, n := range cp[i+1] {
+		t := rawMatcher(n, esc)
+		if k+1 < len(cp[i+1]) {
+			t += q
+		}
+		rest = append(rest, t)
+	}
+	m.value = m.value + q + "] [" + strings.Join(rest, " ")
+	merged := append(append([]c43M(nil), cp[i][:last]...), m)
+	out := append(append(append([][]c43M(nil), cp[:i]...), merged), cp[i+2:]...)
+	return out, true
 }
 
 func genMeta(r *hlib.Rand) gMeta {
 	split := c43Splits[r.Intn(len(c43Splits))]
-	var sels []string
-	for i := r.Intn(3); i > 0; i-- {
-		sels = append(sels, r.Pick(c43Sels))
-	}
-	return gMeta{tenant: genTenant(r), label: genStr(r, c43Labels, "ab:_"), sels: sels, start: r.I64Range(0, 5*split), split: split,
+	return gMeta{tenant: genTenant(r), label: genStr(r, c43Labels, "ab:_"), sets: genSets(r, false), start: r.I64Range(0, 5*split), split: split,
 		partial: r.Bool(), replicas: genReplicas(r)}
 }
 
 func mutateMeta(c *hlib.Ctx, g gMeta, series bool) gMeta {
 	r := c.R
 	h := g
-	h.sels = append([]string(nil), g.sels...)
+	h.sets = append([][]c43M(nil), g.sets...)
 	h.replicas = append([]string(nil), g.replicas...)
-	switch r.Intn(8) {
+	k := r.Intn(11)
+	if k >= 8 {
+		k = 2 // matchers
+	}
+	switch k {
 	case 0:
 		h.tenant = genTenant(r)
 		c.Count("mut:tenant")
@@ -860,8 +1239,50 @@ func mutateMeta(c *hlib.Ctx, g gMeta, series bool) gMeta {
 		h.partial = !g.partial
 		c.Count("mut:partial")
 	case 2:
-		h.sels = append(h.sels, r.Pick(c43Sels))
-		c.Count("mut:matchers")
+		switch r.Intn(4) {
+		case 0:
+			h.sets = append(h.sets, genSet(r, false))
+			c.Count("mut:matchers:add-selector")
+		case 1:
+			if t, ok := twinSets(r, g.sets, r.Chance(1, 3)); ok {
+				h.sets = t
+				c.Count("mut:matchers:spelled-out-twin")
+			} else {
+				h.sets = append(h.sets, genSet(r, true))
+				c.Count("mut:matchers:add-selector")
+			}
+		case 2:
+			if len(g.sets) > 0 {
+				i := r.Intn(len(g.sets))
+				set := append([]c43M(nil), g.sets[i]...)
+				k := r.Intn(len(set))
+				if set[k].op < 2 {
+					set[k].value += r.Pick([]string{`"`, `\\`, " ", ",", "]", "\n", `\\"`})
+				} else {
+					set[k].value += "a"
+				}
+				if k == 0 && set[k].op == 0 && set[k].value == "" {
+					set[k].value = "v"
+				}
+				h.sets[i] = set
+				c.Count("mut:matchers:value-char")
+			} else {
+				h.sets = append(h.sets, genSet(r, false))
+				c.Count("mut:matchers:add-selector")
+			}
+		default:
+			if len(g.sets) > 0 { // split one selector into two / move the boundary
+				i := r.Intn(len(g.sets))
+				if len(g.sets[i]) > 1 {
+					a, b := g.sets[i][:1], g.sets[i][1:]
+					h.sets = append(append(append([][]c43M(nil), g.sets[:i]...), a, b), g.sets[i+1:]...)
+					c.Count("mut:matchers:split-selector")
+					break
+				}
+			}
+			h.sets = append(h.sets, genSet(r, true))
+			c.Count("mut:matchers:add-selector")
+		}
 	case 3:
 		if series {
 			h.replicas = genReplicas(r)
@@ -918,9 +1339,24 @@ func genC43(c *hlib.Ctx) {
 		t := mutateMeta(c, s, true)
 		c.Do("key.series "+s.encSeries(), true)
 		c.Do("key.pair.series "+s.encSeries()+" | "+t.encSeries(), true)
+		// the same requests through the real codec (URL -> DecodeRequest -> WithSplitInterval)
+		if a.urlOK() {
+			c.Count("url:labels")
+			c.Do("key.url.labels "+a.encLabels(), true)
+			if b.urlOK() {
+				c.Do("key.pair.url.labels "+a.encLabels()+" | "+b.encLabels(), true)
+			}
+		}
+		if s.urlOK() {
+			c.Count("url:series")
+			c.Do("key.url.series "+s.encSeries(), true)
+			if t.urlOK() {
+				c.Do("key.pair.url.series "+s.encSeries()+" | "+t.encSeries(), true)
+			}
+		}
 		// labels vs series of the same or a ':'-shifted tenant
 		x := a
-		x.sels, x.start, x.split = s.sels, s.start, s.split
+		x.sets, x.start, x.split = s.sets, s.start, s.split
 		if r.Bool() {
 			x.label = ""
 			if strings.HasSuffix(s.tenant, ":") {
@@ -931,6 +1367,53 @@ func genC43(c *hlib.Ctx) {
 		}
 		c.Count("pair:cross")
 		c.Do("key.pair.cross "+x.encLabels()+" | "+s.encSeries(), true)
+	}
+	// spelled-out twins: one request whose single matcher value spells the text of two matchers / two selectors of the
+	// other (as a renderer without escaping — or one escaping the quote only — would write them); label names, label
+	// values and series requests, built directly and through the codec
+	n = c.N(250, 8000)
+	for i := 0; i < n; i++ {
+		a := genMeta(r)
+		a.tenant = c43Tenants[1+r.Intn(2)]
+		a.sets = nil
+		for k := r.Range(1, 2); k > 0; k-- {
+			set := genSet(r, true)
+			if len(set) < 2 && r.Bool() {
+				set = append(set, genMatcher(r, true))
+			}
+			a.sets = append(a.sets, set)
+		}
+		esc := r.Chance(1, 3)
+		ts, ok := twinSets(r, a.sets, esc)
+		if !ok {
+			continue
+		}
+		b := a
+		b.sets = ts
+		switch r.Intn(3) {
+		case 0:
+			a.label, b.label = "", "" // label names
+		case 1:
+			a.label = c43Labels[r.Intn(3)]
+			b.label = a.label
+		}
+		kind := "labels"
+		ea, eb := a.encLabels(), b.encLabels()
+		if r.Chance(1, 3) {
+			kind = "series"
+			a.replicas = sortedCopy(a.replicas)
+			for badLabel(a.replicas) {
+				a.replicas = nil
+			}
+			b.replicas = a.replicas
+			ea, eb = a.encSeries(), b.encSeries()
+		}
+		c.Count(fmt.Sprintf("twin:%s:esc=%v", kind, esc))
+		c.Do("key.pair."+kind+" "+ea+" | "+eb, true)
+		if a.urlOK() && b.urlOK() {
+			c.Count("twin:url")
+			c.Do("key.pair.url."+kind+" "+ea+" | "+eb, true)
+		}
 	}
 	for _, t := range append(append([]string(nil), c43Tenants...), ".", "..", "a/b", `a\b`, "./x", "...", "a.b") {
 		c.Count("tenant")
